@@ -159,6 +159,10 @@ def render(prog):
         for tag in k["filler"]:
             L.append(f"  int unused_{tag} = {tag}; (void) unused_{tag}; /* unannotated statement {tag} */")
             filler.append(L[-1])
+            if tag % 3 == 0:
+                # a complete one-line block comment with a // inside it (a URL), right above the blocks
+                L.append(f"  /* see https://example.org/doc/{tag}#block for the derivation */")
+                filler.append(L[-1])
         for b, blk in enumerate(k["blocks"]):
             v = blk["var"]
             blim = f"{lim}-{blk['short']}" if blk.get("short") else lim
@@ -328,7 +332,7 @@ class DevSim:
         bs = prog["block_size"]
         n = rng.choice([0, 0, 1, 2, 3, bs - 1, bs, bs + 1, 2 * bs + 3, 5 * bs + 1, rng.randint(0, 40)])
         n = max(0, min(n, 700))
-        return {"op": "launch", "kernel": rng.randrange(len(prog["kernels"])), "target": rng.choice(prog["built"]), "n": n, "order": [rng.choice(["identity", "reverse", "shuffle", "shuffle", "blockshuffle"]), rng.getrandbits(30)], "xseed": rng.getrandbits(30), "sc": rng.choice([0, 1, -3, 1000])}
+        return {"op": "launch", "kernel": rng.randrange(len(prog["kernels"])), "target": rng.choice(prog["built"]), "n": n, "order": [rng.choice(["identity", "reverse", "shuffle", "shuffle", "blockshuffle"]), rng.getrandbits(30)], "xseed": rng.getrandbits(30), "sc": rng.choice([0, 1, -3, 1000]), "cpu_zero_launch": rng.random() < 0.2}
 
     # -- building on every target through the real context code
     def descriptions(self, prog):
@@ -440,6 +444,11 @@ class DevSim:
         if lim != "n":
             kw["nlaunch"] = n
             res.probe("limit_is_an_expression")
+            if op.get("cpu_zero_launch") and t.startswith("cpu") and n > 0:
+                # the argument named as n_threads is 0 while the blocks run over a limit of their own
+                # (another argument): a CPU loop runs to its limit whatever the launch size says
+                kw["nlaunch"] = 0
+                res.probe("cpu_launch_size_zero_with_own_limit")
         if k["scalar"]:
             kw["sc"] = op["sc"]
         for b in range(len(k["blocks"])):
